@@ -19,8 +19,10 @@ import (
 	goparser "go/parser"
 	gotoken "go/token"
 	"hash/fnv"
+	"io"
 	"math/rand"
 	"os"
+	"os/exec"
 	"path/filepath"
 	"regexp"
 	"sort"
@@ -36,7 +38,10 @@ import (
 	"github.com/FollowTheProcess/spok/token"
 )
 
-func init() { commands["syntax"] = syntaxCmd }
+func init() {
+	commands["syntax"] = syntaxCmd
+	commands["syntax-worker"] = syntaxWorker
+}
 
 // the lexer-class alphabet of DESIGN.md section 5 group A
 var alphabet = []string{"a", "task", "_", "é", "日", "1", " ", "\t", "\n", "\r\n", " ", "#", "\"", "(", ")", "{", "}", ",", ":=", "->", "{{", "}}", ".", "$", "\xff", ";"}
@@ -573,6 +578,16 @@ func syntaxCmd(args []string) error {
 		st.OracleFailures[prop]++
 		fmt.Fprintf(bo, "%s %s %s\n", prop, hx(src), strings.ReplaceAll(detail, "\n", "\\n"))
 	}
+	// the implementation runs in a child process: a panic inside the lexer's own goroutine cannot be recovered
+	// and must be an observation, not the end of the check
+	self, _ := os.Executable()
+	var wk *synWorker
+	served := 0
+	defer func() {
+		if wk != nil {
+			wk.stop()
+		}
+	}()
 	run := func(source, src string) {
 		h := fnv.New64a()
 		h.Write([]byte(src))
@@ -586,27 +601,55 @@ func syntaxCmd(args []string) error {
 		st.Distinct++
 		st.BySource[source]++
 		st.LenHist[lenBucket(len(src))]++
-		lo := lexAll(src)
-		pa := parseOnce(src)
-		pb := parseOnce(src)
+		if wk == nil || served >= 20000 {
+			if wk != nil {
+				wk.stop()
+			}
+			wk, served = startSynWorker(self), 0
+		}
+		served++
+		resp, ok := wk.ask(hx(src))
 		fmt.Fprintln(bc, hx(src))
-		fmt.Fprintf(bi, "%s ## %s\n", projectLex(lo), projectParse(pa))
-		if len(lo.toks) >= 3 {
+		if !ok {
+			wk.stop()
+			wk = nil
+			fmt.Fprintln(bi, "CRASH ## CRASH ## -")
+			fail("C08", src, "lexing/parsing this input crashed or hung the process (a fault outside the parsing goroutine cannot be recovered)")
+			fail("C16", src, "lexing this input crashed or hung the process")
+			return
+		}
+		parts := strings.SplitN(resp, "\t", 3)
+		if len(parts) != 3 {
+			fmt.Fprintln(bi, "BADWORKERLINE ## - ## -")
+			return
+		}
+		fmt.Fprintln(bi, parts[0])
+		if parts[1] != "" {
+			for _, e := range strings.Split(parts[1], "\x1e") {
+				if pd := strings.SplitN(e, "\x1f", 2); len(pd) == 2 {
+					fail(pd[0], src, pd[1])
+				}
+			}
+		}
+		var ntok, pok, lerr, nodes int
+		var eline string
+		fmt.Sscanf(parts[2], "%d,%d,%d,%d,%s", &ntok, &pok, &lerr, &nodes, &eline)
+		if ntok >= 3 {
 			st.MultiToken++
 		}
-		for _, t := range lo.toks {
-			st.TokenKinds[t.Type.String()]++
-		}
-		if n := len(lo.toks); n > 0 && lo.toks[n-1].Type == token.ERROR {
-			st.LexErr++
-		}
-		if pa.err != nil {
-			st.ParseErr++
-			if m := parseLineRe.FindStringSubmatch(pa.err.Error()); m != nil {
-				st.ErrLines[m[1]]++
+		for _, f := range strings.Fields(strings.SplitN(parts[0], " ## ", 2)[0]) {
+			if i := strings.IndexByte(f, ':'); i > 0 {
+				st.TokenKinds[f[:i]]++
 			}
-		} else {
+		}
+		st.LexErr += lerr
+		if pok == 1 {
 			st.ParseOK++
+		} else {
+			st.ParseErr++
+			if eline != "-" {
+				st.ErrLines[eline]++
+			}
 		}
 		if strings.Contains(src, "\r\n") {
 			st.CRLF++
@@ -617,24 +660,8 @@ func syntaxCmd(args []string) error {
 				break
 			}
 		}
-		if len(st.Samples) < 6 && (st.Cases%9973 == 1 || (pa.err == nil && len(pa.tree.Nodes) >= 2 && len(st.Samples) < 3)) {
+		if len(st.Samples) < 6 && (st.Cases%9973 == 1 || (pok == 1 && nodes >= 2 && len(st.Samples) < 3)) {
 			st.Samples = append(st.Samples, strconv.Quote(src))
-		}
-		if d := oracleC16(src, lo); d != "" {
-			fail("C16", src, d)
-		}
-		if d := oracleC08(src, pa, pb); d != "" {
-			fail("C08", src, d)
-		}
-		c07, c11, c15 := oracleFmt(src, pa)
-		if c07 != "" {
-			fail("C07", src, c07)
-		}
-		if c11 != "" {
-			fail("C11", src, c11)
-		}
-		if c15 != "" {
-			fail("C15", src, c15)
 		}
 	}
 
@@ -733,4 +760,105 @@ func syntaxCmd(args []string) error {
 	fo.Close()
 	sj, _ := json.Marshal(st)
 	return os.WriteFile(filepath.Join(*out, fmt.Sprintf("stats.%d.json", *shard)), sj, 0o644)
+}
+
+// ---- the child process that runs the implementation ----
+
+type synWorker struct {
+	cmd *exec.Cmd
+	in  io.WriteCloser
+	out *bufio.Reader
+}
+
+func startSynWorker(bin string) *synWorker {
+	cmd := exec.Command(bin, "syntax-worker")
+	in, _ := cmd.StdinPipe()
+	op, _ := cmd.StdoutPipe()
+	cmd.Stderr = io.Discard
+	if err := cmd.Start(); err != nil {
+		return &synWorker{}
+	}
+	return &synWorker{cmd, in, bufio.NewReaderSize(op, 1<<20)}
+}
+
+func (w *synWorker) stop() {
+	if w.cmd == nil {
+		return
+	}
+	w.in.Close()
+	w.cmd.Process.Kill()
+	w.cmd.Wait()
+}
+
+func (w *synWorker) ask(hexInput string) (string, bool) {
+	if w.cmd == nil {
+		return "", false
+	}
+	if _, err := fmt.Fprintln(w.in, hexInput); err != nil {
+		return "", false
+	}
+	ch := make(chan string, 1)
+	go func() {
+		l, err := w.out.ReadString('\n')
+		if err != nil {
+			ch <- "\x00DEAD"
+			return
+		}
+		ch <- strings.TrimRight(l, "\n")
+	}()
+	select {
+	case r := <-ch:
+		if r == "\x00DEAD" {
+			return "", false
+		}
+		return r, true
+	case <-time.After(4 * watchdog):
+		return "", false
+	}
+}
+
+func syntaxWorker(args []string) error {
+	in := bufio.NewReaderSize(os.Stdin, 1<<20)
+	out := bufio.NewWriterSize(os.Stdout, 1<<16)
+	for {
+		line, err := in.ReadString('\n')
+		if err != nil {
+			return nil
+		}
+		b, derr := hex.DecodeString(strings.TrimSpace(line))
+		if derr != nil {
+			fmt.Fprintln(out, "BADHEX ## - ## -\t\t0,0,0,0,-")
+			out.Flush()
+			continue
+		}
+		src := string(b)
+		lo := lexAll(src)
+		pa := parseOnce(src)
+		pb := parseOnce(src)
+		var fails []string
+		add := func(prop, d string) {
+			if d != "" {
+				fails = append(fails, prop+"\x1f"+strings.NewReplacer("\n", "\\n", "\t", "\\t", "\x1e", "?", "\x1f", "?").Replace(d))
+			}
+		}
+		add("C16", oracleC16(src, lo))
+		add("C08", oracleC08(src, pa, pb))
+		c07, c11, c15 := oracleFmt(src, pa)
+		add("C07", c07)
+		add("C11", c11)
+		add("C15", c15)
+		lerr, pok, nodes, eline := 0, 0, 0, "-"
+		if n := len(lo.toks); n > 0 && lo.toks[n-1].Type == token.ERROR {
+			lerr = 1
+		}
+		if pa.err == nil && !pa.hang && pa.pnc == "" {
+			pok, nodes = 1, len(pa.tree.Nodes)
+		} else if pa.err != nil {
+			if m := parseLineRe.FindStringSubmatch(pa.err.Error()); m != nil {
+				eline = m[1]
+			}
+		}
+		fmt.Fprintf(out, "%s ## %s\t%s\t%d,%d,%d,%d,%s\n", projectLex(lo), projectParse(pa), strings.Join(fails, "\x1e"), len(lo.toks), pok, lerr, nodes, eline)
+		out.Flush()
+	}
 }
